@@ -148,7 +148,7 @@ func c13Step(st *State, m *c13Model, step string, freshID int) {
 		cands = append(cands, h)
 	}
 	cands = append(cands, m.last, c13Hash(60000))
-	op := verifrt.Choose(step+".op", 8)
+	op := verifrt.Choose(step+".op", 9)
 	switch op {
 	case 0: // announce: AddBlockRequest(prev, fresh)
 		prev := cands[verifrt.Choose(step+".prev", len(cands))]
@@ -274,6 +274,11 @@ func c13Step(st *State, m *c13Model, step string, freshID int) {
 		m.processing = false
 		st.BlockProcessed()
 		c13Agree(st, m, "BlockProcessed")
+	case 8: // the connection is replaced (Node.Run's in-place restart): every request is dropped,
+		// nothing is buffered any more, the last saved hash stays
+		m.req, m.toReq, m.processing = nil, nil, false
+		st.Reset()
+		c13Agree(st, m, "Reset")
 	}
 }
 
